@@ -68,7 +68,7 @@ type Param struct{ Name, Type string }
 var clauseKeywords = map[string]bool{"func": true, "spec": true, "lemma": true, "requires": true, "ensures": true, "modifies": true,
 	"pure": true, "inline": true, "assumed": true, "fp": true, "loop": true, "ghost": true, "property": true, "opaque": true,
 	"noframe": true, "trusted": true, "deterministic": true, "maxinline": true, "allowpanic": true, "import": true, "intsmath": true, "nocanary": true,
-	"havocglobals": true, "readsheap": true, "alloclimit": true, "replay": true, "fpcmp": true, "stream": true, "timeout": true, "thorough": true, "terminates": true}
+	"havocglobals": true, "readsheap": true, "alloclimit": true, "inlinecalls": true, "unrollcalls": true, "replay": true, "fpcmp": true, "stream": true, "timeout": true, "thorough": true, "terminates": true}
 
 type ContractSet struct {
 	ByPkg   map[string][]*Contract // pkg dir -> contracts in file order
@@ -690,6 +690,8 @@ func vcModObj[T any](p *T) {}
 func vcModMap[K comparable, V any](m map[K]V) {}
 func vcLen[T any](s []T) int { return len(s) }
 func vcSame[T any](a, b T) bool { return true }
+func vcFirst[A, B any](a A, b B) A { return a }
+func vcSecond[A, B any](a A, b B) B { return b }
 func vcMapHas[K comparable, V any](m map[K]V, k K) bool { _, ok := m[k]; return ok }
 func vcHeld[T any](mu *T) bool { return false }
 func vcOldGet[T any](k int, witness T) T { return witness }
